@@ -135,7 +135,7 @@ def run(ctx) -> None:
     for platform, version, proto, n2p, p2n in tables:
         if not mine():
             continue
-        nums = sorted(set(n2p.values()))
+        nums = sorted(set(names.PORT[proto].values()))  # every number that has a name in *some* table
         body = "\n".join(f" permit {proto} any any eq {n}" for n in nums)
         head = "ip access-list T" if platform == "nxos" else "ip access-list extended T"
         cfg = f"{head}\n{body}\n"
